@@ -28,7 +28,11 @@ fi
 [ -x "$B/instr" ] || go build -o "$B/instr" ./instr || { echo "ERROR: cannot build instr"; exit 2; }
 case $PROP in
   C04|C05|C06|C07|C08)
-    "$B/instr" -repo "$REPO" -out "$D/ov" -sched || exit 2
+    # the driver's context watcher (module cache) is rewritten too; the module
+    # index of the go command does not see overlays of module-cache files
+    export GODEBUG=goindex=0
+    DRV=$(go list $MODFLAG -m -f '{{.Dir}}' github.com/Breeze0806/mysql) || { echo "ERROR: cannot locate the driver module"; exit 2; }
+    "$B/instr" -repo "$REPO" -out "$D/ov" -sched -driver "$DRV" || exit 2
     if ! go build $MODFLAG -overlay "$D/ov/overlay.json" -tags verif -o "$D/engine" ./cmd/vsched > "$D/build.log" 2>&1; then
       cat "$D/build.log"; echo "ERROR: cannot build the instrumented engine (see above)"; exit 2
     fi
